@@ -38,6 +38,12 @@ MCView == <<live, ReplayFile(file), nsets, lastErr, reopened>>
 
 Prefixes == [n \in 1..(Len(file) + 1) |-> Proj(ReplayFile(SubSeq(file, 1, n - 1)).m)]
 
-Emit == nsets = MaxSets => PrintT(<<"CASE", ToJson([threshold |-> Threshold, steps |-> hist, prefixes |-> Prefixes,
+\* a torn tail is cut off by the re-open (truncation at the last whole record); the next change
+\* set must land right behind that record: replay of (prefix + one more set). The extra set is
+\* the always-valid "delete table 1".
+PrefixesThenDelete == [n \in 1..(Len(file) + 1) |->
+                          Proj(ReplayFile(Append(SubSeq(file, 1, n - 1), <<Dl(1)>>)).m)]
+
+Emit == nsets = MaxSets => PrintT(<<"CASE", ToJson([threshold |-> Threshold, steps |-> hist, prefixes |-> Prefixes, prefixesThenDelete |-> PrefixesThenDelete,
                                                       reopen |-> Proj(Cloned(ReplayFile(file).m))])>>)
 =============================================================================
